@@ -244,8 +244,10 @@ func (d *defaultValidator) validateDefaultValueSchemaAgainstSchema(path, in stri
 	s := d.SpecValidator
 
 	if schema.Default != nil {
+		// validate against a copy: the validator expands a $ref in place, and schema may point into the parsed spec
+		sch := *schema
 		res.Merge(
-			newSchemaValidator(schema, s.spec.Spec(), path+".default", s.KnownFormats, d.schemaOptions).Validate(schema.Default),
+			newSchemaValidator(&sch, s.spec.Spec(), path+".default", s.KnownFormats, d.schemaOptions).Validate(schema.Default),
 		)
 	}
 	if schema.Items != nil {
